@@ -12,7 +12,7 @@ import (
 
 // fault is one payload-level alteration of a BatchArrowRecords in transit.
 type fault struct {
-	Kind string // relabel | drop | duplicate | reorder | empty | schema_id_unknown | schema_id_stale
+	Kind string // relabel | drop | duplicate | duplicate_relabel | swap_labels | reorder | empty | schema_id_unknown | schema_id_stale
 	I, J int
 	To   colarspb.ArrowPayloadType
 	ID   string
@@ -24,6 +24,10 @@ func (f fault) String() string {
 		return fmt.Sprintf("relabel payload %d as %s", f.I, f.To)
 	case "reorder":
 		return fmt.Sprintf("swap payloads %d and %d", f.I, f.J)
+	case "duplicate_relabel":
+		return fmt.Sprintf("duplicate payload %d and relabel the copy as %s", f.I, f.To)
+	case "swap_labels":
+		return fmt.Sprintf("exchange the type labels of payloads %d and %d", f.I, f.J)
 	case "schema_id_stale":
 		return fmt.Sprintf("payload %d gets the retired schema id %q", f.I, f.ID)
 	case "schema_id_unknown":
@@ -38,7 +42,7 @@ func (f fault) String() string {
 // / reader state no longer matches the producer's; what later batches meet is
 // Arrow-internal indexing, which the property puts outside its domain. Only
 // relabelling and reordering leave every sub-stream in step.
-func (f fault) desyncs() bool { return f.Kind != "relabel" && f.Kind != "reorder" }
+func (f fault) desyncs() bool { return f.Kind != "relabel" && f.Kind != "reorder" && f.Kind != "swap_labels" }
 
 func applyFault(bar *colarspb.BatchArrowRecords, f fault) {
 	ps := bar.ArrowPayloads
@@ -52,6 +56,13 @@ func applyFault(bar *colarspb.BatchArrowRecords, f fault) {
 		out := append([]*colarspb.ArrowPayload{}, ps[:f.I+1]...)
 		out = append(out, cp)
 		bar.ArrowPayloads = append(out, ps[f.I+1:]...)
+	case "duplicate_relabel":
+		cp := &colarspb.ArrowPayload{SchemaId: ps[f.I].SchemaId, Type: f.To, Record: append([]byte(nil), ps[f.I].Record...)}
+		out := append([]*colarspb.ArrowPayload{}, ps[:f.I+1]...)
+		out = append(out, cp)
+		bar.ArrowPayloads = append(out, ps[f.I+1:]...)
+	case "swap_labels":
+		ps[f.I].Type, ps[f.J].Type = ps[f.J].Type, ps[f.I].Type
 	case "reorder":
 		ps[f.I], ps[f.J] = ps[f.J], ps[f.I]
 	case "empty":
@@ -93,7 +104,14 @@ func singleFaults(bar *colarspb.BatchArrowRecords, signal string, retired []stri
 			fs = append(fs, fault{Kind: "schema_id_stale", I: i, ID: id})
 		}
 		for j := i + 1; j < n; j++ {
-			fs = append(fs, fault{Kind: "reorder", I: i, J: j})
+			fs = append(fs, fault{Kind: "reorder", I: i, J: j}, fault{Kind: "swap_labels", I: i, J: j})
+		}
+		// structured compound faults: a payload delivered twice, the second
+		// time under another label
+		for _, to := range relabelTo {
+			if to != bar.ArrowPayloads[i].Type {
+				fs = append(fs, fault{Kind: "duplicate_relabel", I: i, To: to})
+			}
 		}
 	}
 	return fs
@@ -120,6 +138,7 @@ func (r *run) runFaults() {
 	nSuffix := t.Weighted(core.Gen, 2, 3, 2, 1, 1)
 	hp.nBatches = nPrefix + 1 + nSuffix
 	hp.ramp = []string{"", "small"}[t.Weighted(core.Gen, 6, 1)]
+	hp.bare = t.Chance(core.Gen, 1, 5)
 
 	producer := arrow_record.NewProducerWithOptions(opt.build(nil, nil)...)
 	defer func() { _ = producer.Close() }()
@@ -137,7 +156,7 @@ func (r *run) runFaults() {
 		b := r.genBatch(hp, i)
 		if i == nPrefix && b.items == 0 {
 			// the target batch should carry something
-			g := &G{t: t, InDomain: true}
+			g := &G{t: t, InDomain: true, Bare: hp.bare}
 			switch signal {
 			case "traces":
 				b.td = g.Traces()
@@ -194,7 +213,7 @@ func (r *run) runFaults() {
 		desync := false
 		var names []string
 		for _, f := range fs {
-			if f.I >= len(bar.ArrowPayloads) || (f.Kind == "reorder" && f.J >= len(bar.ArrowPayloads)) {
+			if f.I >= len(bar.ArrowPayloads) || ((f.Kind == "reorder" || f.Kind == "swap_labels") && f.J >= len(bar.ArrowPayloads)) {
 				continue
 			}
 			applyFault(bar, f)
